@@ -110,9 +110,11 @@ impl ReceiveChannelUnreliable {
                 lemma_bytes_total_push(old(self).messages@, message);
                 assert(self.slices@ =~= g_slices.remove(slice.message_id));
             }
-//@after /self\.slices_last_received\.insert\(slice\.message_id, current_time\);/
-            proof {
-                let id = slice.message_id;
+//@before /^        Ok\(\(\)\)$/
+        proof {
+            let id = slice.message_id;
+            if self.slices@.contains_key(id) {
+                // reassembly still incomplete: the constructor was created or updated in place
                 let c1 = self.slices@[id];
                 assert(self.slices@ =~= old(self).slices@.insert(id, c1));
                 if old(self).slices@.contains_key(id) {
@@ -121,6 +123,7 @@ impl ReceiveChannelUnreliable {
                     lemma_reserved_insert(old(self).slices@, id, c1);
                 }
             }
+        }
 //@endfn
 
 //@fn renet/src/channel/unreliable.rs ReceiveChannelUnreliable::discard_incomplete_old_slices
